@@ -367,7 +367,7 @@ func checkC10(r *fw.Run) {
 		return
 	}
 	rng := r.Rng("progs")
-	n := r.Pick(96, 700)
+	n := r.Pick(96, 1500)
 	if v := os.Getenv("C10_N"); v != "" {
 		fmt.Sscan(v, &n)
 	}
